@@ -16,8 +16,15 @@ def main(pid, tier="quick", seed=1, show=3):
         c += c1
         m += m1
     groups = collections.defaultdict(list)
+    findings = core.load_findings()
+    known = {}
     for (name, script), cr, mr in zip(streams, c, m):
         res = run.compare_script(script, cr, mr)
+        if res["kind"] not in ("ok", "drift") and hasattr(prop, "finding_key"):
+            k0 = prop.finding_key(script, res)
+            if any(f["property"] == prop.id and f["key"] == k0 for f in findings):
+                known[k0] = known.get(k0, 0) + 1
+                continue
         if res["kind"] != "ok":
             op = (res.get("op") or "").split()
             d = res.get("detail", "")
@@ -33,6 +40,7 @@ def main(pid, tier="quick", seed=1, show=3):
                 print("    model:", mr[0][ln])
             if ln < len(cr[0]):
                 print("    code :", cr[0][ln])
+    print("known findings hit:", known)
     print("total", len(streams), {k: len(v) for k, v in groups.items()})
 
 if __name__ == "__main__":
